@@ -5,7 +5,7 @@ from . import graphcommon as gc
 MODULE = "NadaVerif.Props.C10"
 TRANSLATORS = None
 THEOREMS = [f"NadaVerif.C10.{n}" for n in (
-    "outputs_in_order", "compile_outputs_exact", "dup_input_rejected", "mem_insertSorted", "addInput_lists_party", "inputs_as_declared")]
+    "outputs_in_order", "compile_outputs_exact", "dup_input_rejected", "mem_insertSorted", "addInput_lists_party", "inputs_as_declared", "parties_cover")]
 
 
 def oracle(mir, rec):
